@@ -131,6 +131,14 @@ void GlobalGraph::switchNodes(Graph::NodeId nodeA, Graph::NodeId nodeB)
 
   nodeMustExist_(nodeA, "first node to switch");
   nodeMustExist_(nodeB, "second node to switch");
+  if (!directed_)
+  {
+    // no direction to switch in the node structure: only the order of the end points changes
+    edgeStructureType::iterator undirectedEdge = edgeStructure_.find(getEdge(nodeA, nodeB));
+    std::swap(undirectedEdge->second.first, undirectedEdge->second.second);
+    this->topologyHasChanged_();
+    return;
+  }
 
   nodeStructureType::iterator nodeARow = nodeStructure_.find(nodeA);
   nodeStructureType::iterator nodeBRow = nodeStructure_.find(nodeB);
